@@ -511,6 +511,13 @@ def _foreign_flag_writes(db: ProgramDB, ev_fns: Set[str]) -> List[Instance]:
                                         f"frozen exception: {PER_ROW_PROTOCOL_FIELDS[t.attr]}", line=n.lineno))
                         continue
                     undone = t.attr in reset_self or any(t.attr in reset_foreign.get(k.name, set()) for k in f.cls.mro)
+                    if not undone:
+                        # a bracket inside the function itself: the flag is given to the elements of a local collection and taken back
+                        # from the same collection on EVERY exit (normal, exceptional, the generator closed while suspended)
+                        br = _bracketed_foreign_flag(db, f, n, t)
+                        if br is not None:
+                            out.append(inst("EVAL-STATE-RESET", HOLDS, f, f"{f.short}[{unparse(t)} = {unparse(n.value)}]", br, line=n.lineno))
+                            continue
                     if undone and t.attr not in reset_self:
                         # the reset withdraws the flag from exactly the nodes this evaluation gave it to: the collection it walks
                         # is the one the setter records the node in
@@ -536,6 +543,58 @@ def _foreign_flag_writes(db: ProgramDB, ev_fns: Set[str]) -> List[Instance]:
                                     f"evaluation and no reset withdraws it: after this query was evaluated once, every query that shares "
                                     f"the node behaves as if the flag had always been set", line=n.lineno))
     return out
+
+
+def _bracketed_foreign_flag(db: ProgramDB, f: FuncInfo, n: ast.Assign, t: ast.Attribute) -> Optional[str]:
+    """reason text when the write `n` (target `t`) is one half of a set / take-back bracket over one local collection that is closed
+    on every exit of f; None otherwise"""
+    loops = [l for l in own_nodes(f.node) if isinstance(l, ast.For) and any(x is n for x in ast.walk(l))]
+    if not loops or not isinstance(loops[-1].iter, ast.Name):
+        return None
+    coll = loops[-1].iter.id
+    fld = db.field_default(t.attr) if hasattr(db, "field_default") else None
+    # the two halves: writes of a constant to the same attribute inside loops over the same collection
+    halves = [(a, l) for l in own_nodes(f.node) if isinstance(l, ast.For) and isinstance(l.iter, ast.Name) and l.iter.id == coll
+              for a in ast.walk(l) if isinstance(a, ast.Assign) and isinstance(a.value, ast.Constant)
+              and any(isinstance(tt, ast.Attribute) and tt.attr == t.attr and not (isinstance(tt.value, ast.Name) and tt.value.id == "self") for tt in a.targets)]
+    values = {a.value.value for a, _ in halves}
+    if len(values) != 2:
+        return None
+    # the collection is local and not modified after it was built
+    defs = [a for a in own_nodes(f.node) if isinstance(a, ast.Assign) and any(isinstance(x, ast.Name) and x.id == coll for x in a.targets)]
+    if len(defs) != 1 or any(isinstance(c, ast.Call) and isinstance(c.func, ast.Attribute) and isinstance(c.func.value, ast.Name) and c.func.value.id == coll
+                             and c.func.attr in ("append", "extend", "pop", "remove", "clear", "insert") for c in own_nodes(f.node)):
+        return None
+    cfg = CFG(f)
+    first = min(halves, key=lambda h: h[0].lineno)
+    last_val = max(halves, key=lambda h: h[0].lineno)[0].value.value
+    setters = [a for a, _ in halves if a.value.value != last_val]
+    takers = {id(a) for a, _ in halves if a.value.value == last_val}
+
+    taker_loops = [l for a2, l in halves if id(a2) in takers]
+
+    def takes_back(nd):
+        # entering the loop that takes the flag back from every element (with no element there is nothing to take back)
+        return (nd.kind == "for" and any(nd.stmt is l for l in taker_loops)) or (nd.kind == "stmt" and nd.ast is not None and id(nd.ast) in takers)
+    for a in setters:
+        start = next((nd for nd in cfg.nodes if nd.kind == "stmt" and nd.ast is a and not nd.region), None)
+        if start is None:
+            return None
+        set_loop = next(l for a2, l in halves if a2 is a)
+        loop_ids = {id(x) for x in ast.walk(set_loop)}
+
+        def edge_ok(e, loop_ids=loop_ids):
+            # giving the flag (a constant stored in an attribute, a loop over a local list) does not raise
+            src = cfg.nodes[e.src]
+            if e.kind == "e" and (src.ast is not None and id(src.ast) in loop_ids or (src.kind == "for" and src.stmt is set_loop)):
+                return False
+            return cfg.no_cleanup_exc(e)
+        leak = cfg.find_path(start.id, lambda nd: nd.id in (cfg.exit, cfg.raise_exit) or nd.kind == "closed", kinds=("n", "e", "s"), blocked=takes_back,
+                             edge_ok=edge_ok)
+        if leak is not None:
+            return None
+    return (f"set on the elements of the local `{coll}` and taken back from the same elements on every exit of {f.short} (normal, exceptional, closed while "
+            f"suspended)")
 
 
 def _reinit_dominates(db: ProgramDB, m: FuncInfo, attr: str) -> bool:
